@@ -74,3 +74,16 @@ func verifClone(reuse *Type) {
 		VerifCnt.CloneNew++
 	}
 }
+
+// verifCloneStack trims the stack of a freshly forked context to what the
+// copied frame needs (VerifTight only), so its first growth moves it.
+func verifCloneStack(m *Type, s []value.Type) []value.Type {
+	need := 0
+	if len(m.fp) >= 2 {
+		need = m.sp - m.fp[len(m.fp)+localFP]
+	}
+	if VerifTight && need+1 <= len(s) {
+		return s[: need+1 : need+1]
+	}
+	return s
+}
